@@ -7,6 +7,7 @@ import (
 	"sort"
 	"strings"
 
+	"github.com/nyaruka/goflow/excellent"
 	"github.com/nyaruka/goflow/excellent/tools"
 	"github.com/nyaruka/goflow/flows"
 
@@ -201,6 +202,15 @@ func assetsJSON(c *Case, without string) []byte {
 			continue
 		}
 		sec := assetSection[a.Kind]
+		if v, ok := globalOverride[a.ID]; ok && a.Kind == "global" {
+			cp := map[string]any{}
+			for k, x := range a.JSON {
+				cp[k] = x
+			}
+			cp["value"] = v
+			doc[sec] = append(doc[sec].([]any), cp)
+			continue
+		}
 		doc[sec] = append(doc[sec].([]any), a.JSON)
 	}
 	doc["resthooks"] = resthooks
@@ -272,8 +282,8 @@ func templatePaths(t string) [][]string {
 }
 
 func coqTpl(t string) string {
-	return fmt.Sprintf("{| t_raw := %s; t_paths := %s |}", hx.Str(t),
-		hx.List(templatePaths(t), func(p []string) string { return hx.List(p, hx.Str) }))
+	return fmt.Sprintf("{| t_raw := %s; t_paths := %s; t_literal := %s |}", hx.Str(t),
+		hx.List(templatePaths(t), func(p []string) string { return hx.List(p, hx.Str) }), hx.Bool(isLiteral(t)))
 }
 
 func coqTField(f *TField, d *ids) string {
@@ -296,14 +306,37 @@ func coqTField(f *TField, d *ids) string {
 	return fmt.Sprintf("{| tf_vals := %s; tf_trans := [%s] |}", hx.List(vals, coqTpl), strings.Join(tr, "; "))
 }
 
-// a reference member: the reference itself and, for group/label/user references, its `engine:"evaluated"`
-// name_match / email_match member (assets/group.go, label.go, user.go), which the reflection walk visits next
+// expression-free: the string evaluates to itself (excellent.HasExpressions, not flows/inspect)
+func isLiteral(t string) bool { return !excellent.HasExpressions(t, flows.RunContextTopLevels) }
+
+// a reference member: a reference with identity is an IRef; a group/label/user reference without identity is an IVar
+// carrying its `engine:"evaluated"` name_match / email_match member (assets/group.go, label.go, user.go)
 func coqRefItems(r Ref) []string {
-	items := []string{"IRef " + coqRef(r.Kind, r.ID)}
-	if r.Match != "" {
-		items = append(items, fmt.Sprintf("ITpl {| tf_vals := [%s]; tf_trans := [] |}", coqTpl(r.Match)))
+	if r.ID == "" {
+		return []string{fmt.Sprintf("IVar %s %s", kindCoq[r.Kind], coqTpl(r.Match))}
 	}
-	return items
+	return []string{"IRef " + coqRef(r.Kind, r.ID)}
+}
+
+// the names (emails) of the session's groups, labels, topics and users: what a literal name resolves to
+func coqNames(c *Case) string {
+	missing := map[string]bool{}
+	for _, m := range c.Missing {
+		missing[m] = true
+	}
+	var out []string
+	for _, a := range universe() {
+		if missing[a.Kind+":"+a.ID] {
+			continue
+		}
+		switch a.Kind {
+		case "group", "label", "topic":
+			out = append(out, fmt.Sprintf("{| nm_kind := %s; nm_name := %s; nm_id := %s |}", kindCoq[a.Kind], hx.Str(a.Name), hx.Str(a.ID)))
+		case "user":
+			out = append(out, fmt.Sprintf("{| nm_kind := KUser; nm_name := %s; nm_id := %s |}", hx.Str(a.ID), hx.Str(a.ID)))
+		}
+	}
+	return "[" + strings.Join(out, "; ") + "]"
 }
 
 var saverCoq = map[string]string{"call_classifier": "SvCallClassifier", "call_resthook": "SvCallResthook", "call_webhook": "SvCallWebhook",
@@ -313,6 +346,8 @@ func coqAction(a *Action, d *ids) string {
 	var items []string
 	for _, it := range a.Items {
 		switch {
+		case it.Tpl != nil && it.Key == "legacy_vars":
+			items = append(items, "ILegacy "+coqTField(it.Tpl, d))
 		case it.Tpl != nil:
 			items = append(items, "ITpl "+coqTField(it.Tpl, d))
 		case it.IsRefs:
